@@ -794,6 +794,453 @@ theorem simE (C : Cipher) (hlen : ∀ k x, x.length = 16 → (C.enc k x).length 
     · rw [hl] at hc
       rw [xs_next R1 (S ++ P) Rs _ sum h1 hs hrl hsum (by simp; omega), hsm]
 
+theorem two_n (c : Nat) (h : c % 16 = 0) : 16 * (2 * wblN c) = 2 * c := by
+  unfold wblN; omega
+
+theorem iterEOpt_spec (C : Cipher) (hlen : ∀ k x, x.length = 16 → (C.enc k x).length = 16) (key : Bytes)
+    (c : Nat) (hc16 : c % 16 = 0) (hc32 : 32 ≤ c) :
+    ∀ (f : Nat) (bO : Bytes) (i r : Nat), bO.length = c → i = (16 * r) % c → i % 16 = 0 →
+    r + f = 2 * wblN c → 0 < f →
+    (wblIterEOpt C key (2 * wblN c) f (bO, xs (rot bO i), i, r)).1
+      = (wblIterEBase C key (2 * wblN c) f (rot bO i) r).1 ∧
+    (wblIterEOpt C key (2 * wblN c) f (bO, xs (rot bO i), i, r)).2.2.2
+      = (wblIterEBase C key (2 * wblN c) f (rot bO i) r).2 := by
+  intro f
+  induction f with
+  | zero => intro bO i r _ _ _ _ h; omega
+  | succ f ih =>
+    intro bO i r hb hi hi16 hr _
+    have hic : i < bO.length := by rw [hi, hb]; exact Nat.mod_lt _ (by omega)
+    obtain ⟨s1, s2, s3, s4, s5⟩ := simE C hlen key bO i r (by omega) (by omega) hi16 hic
+    have hrotl : (rot bO i).length = bO.length := by simp [rot]; omega
+    obtain ⟨b1, b2⟩ := length_roundE C hlen key (rot bO i) (by omega) r
+    simp only [wblIterEOpt, wblIterEBase]
+    generalize wblRoundEOpt C key (bO, xs (rot bO i), i, r) = so at *
+    obtain ⟨bO', sum', i', r'⟩ := so
+    simp only [] at s1 s2 s3 s4 s5
+    subst s3
+    rw [b2]
+    have hi1 : i' = (16 * (r + 1)) % c := by
+      rw [s2, hi, hb, Nat.mod_add_mod]; congr 1
+    have hi1' : i' % 16 = 0 := by
+      rw [s2]
+      by_cases hlt : i + 16 < bO.length
+      · rw [Nat.mod_eq_of_lt hlt]; omega
+      · have : i + 16 = bO.length := by omega
+        rw [this, Nat.mod_self]
+    by_cases hcnd : (r + 1) % (2 * wblN c) ≠ 0
+    · rw [if_pos hcnd, if_pos hcnd]
+      have hf : 0 < f := by
+        apply Nat.pos_of_ne_zero
+        intro h0; subst h0
+        apply hcnd; rw [← hr]; simp
+      have := ih bO' i' (r + 1) (by omega) hi1 hi1' (by omega) hf
+      rw [← s2] at s4
+      rw [s5, ← s4]
+      exact this
+    · rw [if_neg hcnd, if_neg hcnd]
+      have hn : r + 1 = 2 * wblN c := by
+        have hc' : (r + 1) % (2 * wblN c) = 0 := by omega
+        have hle : r + 1 ≤ 2 * wblN c := by omega
+        rcases Nat.lt_or_eq_of_le hle with hlt | heq
+        · rw [Nat.mod_eq_of_lt hlt] at hc'; omega
+        · exact heq
+      have hz : i' = 0 := by
+        rw [hi1, hn, two_n c hc16, Nat.mul_mod_left]
+      rw [← s2, hz, rot_zero] at s4
+      exact ⟨s4, b2.symm⟩
+
+/-- `beltWBLStepEOpt` computes the same buffer and round counter as `beltWBLStepEBase` on every buffer
+made of at least two whole blocks (entered with `st->round = 0`) -/
+theorem stepEOpt_eq_Base (C : Cipher) (hlen : ∀ k x, x.length = 16 → (C.enc k x).length = 16)
+    (key buf : Bytes) (h16 : buf.length % 16 = 0) (h32 : 32 ≤ buf.length) :
+    wblStepEOpt C key buf 0 = wblStepEBase C key buf 0 := by
+  obtain ⟨e1, e2⟩ := iterEOpt_spec C hlen key buf.length h16 h32 (2 * wblN buf.length) buf 0 0 rfl
+    (by simp) rfl (by omega) (wblN_pos _ h32)
+  rw [rot_zero] at e1 e2
+  unfold wblStepEOpt wblStepEBase
+  simp only []
+  have hx : (xorBlocksFrom buf 16 buf.length 16 (buf.take 16)).1 = xs buf := rfl
+  rw [hx, e1, e2]
+
+/-! ### Opt = Base, D direction -/
+
+/-- `r1 + … + r_{n-2}` as computed at the start of `beltWBLStepDOpt` -/
+def xs2 (b : Bytes) : Bytes := (xorBlocksFrom b 32 b.length 16 (b.take 16)).1
+
+theorem xbf_succ (b : Bytes) (stop f i : Nat) (acc : Bytes) (h : i + stop < b.length) :
+    xorBlocksFrom b stop (f + 1) i acc = xorBlocksFrom b stop f (i + 16) (xorb acc (getBlk b i)) := by
+  simp only [xorBlocksFrom, h, if_true]
+
+theorem xbf_tail (b Z : Bytes) (stop : Nat) (hs : 16 ≤ stop) : ∀ (f i : Nat) (acc : Bytes),
+    xorBlocksFrom (b ++ Z) (stop + Z.length) f i acc = xorBlocksFrom b stop f i acc := by
+  intro f
+  induction f with
+  | zero => intro i acc; rfl
+  | succ f ih =>
+    intro i acc
+    simp only [xorBlocksFrom, List.length_append]
+    by_cases h : i + stop < b.length
+    · have hg : getBlk (b ++ Z) i = getBlk b i := by
+        unfold getBlk
+        rw [List.drop_append_of_le_length (by omega), List.take_append_of_le_length (by simp; omega)]
+      rw [if_pos (by omega), if_pos h, hg, ih]
+    · rw [if_neg (by omega), if_neg h]
+
+/-- the sum of all blocks of `M` does not depend on the block that follows, nor on the fuel -/
+theorem xbf_indep (M R R' : Bytes) (hR : R.length = 16) (hR' : R'.length = 16) (hM : M.length % 16 = 0)
+    (f f' : Nat) (hf : M.length + 16 ≤ 16 * f) (hf' : M.length + 16 ≤ 16 * f') (acc : Bytes) (ha : acc.length ≤ 16) :
+    (xorBlocksFrom (M ++ R) 16 f 0 acc).1 = (xorBlocksFrom (M ++ R') 16 f' 0 acc).1 := by
+  have h1 := xbf_swap_tail (zeros 16) (zeros 16) R (length_zeros 16) (length_zeros 16) hR f M acc hM hf
+  have h2 := xbf_swap_tail (zeros 16) (zeros 16) R' (length_zeros 16) (length_zeros 16) hR' f' M acc hM hf'
+  have hl : (M ++ (zeros 16 ++ zeros 16)).length = M.length + 32 := by simp [length_zeros]
+  rw [xbf_fuel _ 16 f f' 0 acc (by rw [hl]; omega) (by rw [hl]; omega), h2] at h1
+  rw [xorb_zeros _ 16 (by rw [length_xbf _ 16 (by omega) _ _ _ ha]; exact ha),
+    xorb_zeros _ 16 (by rw [length_xbf _ 16 (by omega) _ _ _ ha]; exact ha)] at h1
+  exact h1.symm
+
+theorem xs2_eq (M T S : Bytes) (hT : T.length = 16) (hS : S.length = 16) (hM : 16 ≤ M.length) :
+    xs2 (M ++ (T ++ S)) = (xorBlocksFrom (M ++ T) 16 (M.length + 32 + 1) 0 (zeros 16)).1 := by
+  have hl : (M ++ (T ++ S)).length = M.length + 32 := by simp [hT, hS]
+  have e : xs2 (M ++ (T ++ S)) = (xorBlocksFrom (M ++ (T ++ S)) 32 (M.length + 32 + 1) 0 (zeros 16)).1 := by
+    unfold xs2
+    rw [xbf_succ _ 32 (M.length + 32) 0 _ (by omega), hl]
+    have : getBlk (M ++ (T ++ S)) 0 = (M ++ (T ++ S)).take 16 := by simp [getBlk]
+    rw [this, zeros_xorb _ 16 (by simp; omega)]
+  have := xbf_tail (M ++ T) S 16 (by omega) (M.length + 32 + 1) 0 (zeros 16)
+  rw [hS, List.append_assoc] at this
+  rw [e, this]
+
+/-- new `r1` of a D round: `r* + (r1 + … + r_{n-2})` -/
+theorem dsum_r1 (M T T' S : Bytes) (hT : T.length = 16) (hT' : T'.length = 16) (hS : S.length = 16)
+    (hM : M.length % 16 = 0) (hM16 : 16 ≤ M.length) :
+    (xorBlocksFrom (S ++ (M ++ T')) 16 (32 + M.length) 16 S).1 = xorb S (xs2 (M ++ (T ++ S))) := by
+  rw [xbf_shift0 S _ 16 16 hS, xbf_acc _ _ _ _ S (by omega), xs2_eq M T S hT hS hM16,
+    xbf_indep M T' T hT' hT hM (32 + M.length) (M.length + 32 + 1) (by omega) (by omega) _ (by simp [length_zeros])]
+
+/-- the update of `sum` done by a round of `beltWBLStepDOpt` -/
+theorem dsum_next (N1 M' Q T T' S : Bytes) (hN : N1.length = 16) (hQ : Q.length = 16) (hT : T.length = 16)
+    (hT' : T'.length = 16) (hS : S.length = 16) (hM : M'.length % 16 = 0) :
+    xs2 (N1 ++ (M' ++ (Q ++ T'))) = xorb (xorb (xs2 ((M' ++ Q) ++ (T ++ S))) Q) N1 := by
+  have hz : (zeros 16).length ≤ 16 := by simp [length_zeros]
+  have hl : (N1 ++ (M' ++ (Q ++ T'))).length = M'.length + 48 := by simp [hN, hQ, hT']; omega
+  have e1 : xs2 (N1 ++ (M' ++ (Q ++ T'))) = xorb N1 (xorBlocksFrom (M' ++ Q) 16 (M'.length + 48) 0 (zeros 16)).1 := by
+    unfold xs2
+    rw [hl, List.take_left' hN, xbf_shift0 N1 _ 32 16 hN, xbf_acc _ _ _ _ N1 (by omega)]
+    have := xbf_tail (M' ++ Q) T' 16 (by omega) (M'.length + 48) 0 (zeros 16)
+    rw [hT', List.append_assoc] at this
+    rw [this]
+  have e2 : xs2 ((M' ++ Q) ++ (T ++ S)) = xorb (xorBlocksFrom (M' ++ Q) 16 (M'.length + 48) 0 (zeros 16)).1 Q := by
+    rw [xs2_eq (M' ++ Q) T S hT hS (by simp [hQ]), List.append_assoc,
+      xbf_swap_tail Q T Q hQ hT hQ _ M' _ hM (by simp [hQ]; omega)]
+    congr 1
+    exact xbf_indep M' Q Q hQ hQ hM _ _ (by simp [hQ]; omega) (by omega) _ hz
+  rw [e1, e2]
+  generalize hA : (xorBlocksFrom (M' ++ Q) 16 (M'.length + 48) 0 (zeros 16)).1 = A
+  have hAl : A.length = 16 := by
+    rw [← hA, length_xbf _ 16 (by omega) _ _ _ hz, length_zeros]
+  rw [xorb_cancel A Q (by omega), xorb_comm]
+
+/-- Opt D round, `i ≥ 32`: the buffer is `P ‖ r_{n-2} ‖ r_{n-1} ‖ r* ‖ U`, `i = |P| + 32` -/
+theorem roundDOpt_a (C : Cipher) (hlen : ∀ k x, x.length = 16 → (C.enc k x).length = 16)
+    (key P Q T S U sum : Bytes) (hQ : Q.length = 16) (hT : T.length = 16) (hS : S.length = 16)
+    (hsum : sum.length = 16) (round : Nat) :
+    wblRoundDOpt C key (P ++ (Q ++ (T ++ (S ++ U))), sum, P.length + 32) round =
+      (P ++ (Q ++ (xorb T (encRound C key S round) ++ (xorb S sum ++ U))),
+       xorb (xorb sum Q) (xorb S sum), P.length + 16) := by
+  have he := length_encRound C hlen key S round hS
+  generalize hblk : encRound C key S round = blk at *
+  have hT' : (xorb T blk).length = 16 := by rw [length_xorb]; omega
+  have hN : (xorb S sum).length = 16 := by rw [length_xorb]; omega
+  have hl : (P ++ (Q ++ (T ++ (S ++ U)))).length = P.length + 48 + U.length := by simp [hQ, hT, hS]; omega
+  have hj : (P.length + 32 + (P.length + 48 + U.length) - 16) % (P.length + 48 + U.length) = P.length + 16 := by
+    have : P.length + 32 + (P.length + 48 + U.length) - 16 = P.length + 16 + (P.length + 48 + U.length) := by omega
+    rw [this, Nat.add_mod_right, Nat.mod_eq_of_lt (by omega)]
+  have hq : (P.length + 32 + (P.length + 48 + U.length) - 32) % (P.length + 48 + U.length) = P.length := by
+    have : P.length + 32 + (P.length + 48 + U.length) - 32 = P.length + (P.length + 48 + U.length) := by omega
+    rw [this, Nat.add_mod_right, Nat.mod_eq_of_lt (by omega)]
+  have hg0 : getBlk (P ++ (Q ++ (T ++ (S ++ U)))) (P.length + 32) = S := by
+    have := getBlk_append (P ++ (Q ++ T)) S U (P.length + 32) (by simp [hQ, hT]) hS
+    simpa using this
+  have hx1 : xorAt (P ++ (Q ++ (T ++ (S ++ U)))) (P.length + 16) blk = P ++ (Q ++ (xorb T blk ++ (S ++ U))) := by
+    have := xorAt_append (P ++ Q) T (S ++ U) blk (P.length + 16) (by simp [hQ]) hT he
+    simpa using this
+  have hx2 : xorAt (P ++ (Q ++ (xorb T blk ++ (S ++ U)))) (P.length + 32) sum
+      = P ++ (Q ++ (xorb T blk ++ (xorb S sum ++ U))) := by
+    have := xorAt_append (P ++ (Q ++ xorb T blk)) S U sum (P.length + 32) (by simp [hQ, hT']) hS hsum
+    simpa using this
+  have hg1 : getBlk (P ++ (Q ++ (xorb T blk ++ (xorb S sum ++ U)))) P.length = Q :=
+    getBlk_append P Q _ P.length rfl hQ
+  have hg2 : getBlk (P ++ (Q ++ (xorb T blk ++ (xorb S sum ++ U)))) (P.length + 32) = xorb S sum := by
+    have := getBlk_append (P ++ (Q ++ xorb T blk)) (xorb S sum) U (P.length + 32) (by simp [hQ, hT']) hN
+    simpa using this
+  simp only [wblRoundDOpt, hl, hg0, hblk, hj, hx1, hx2, hq, hg1, hg2]
+
+/-- Opt D round, `i = 16`: the buffer is `r_{n-1} ‖ r* ‖ U ‖ r_{n-2}` -/
+theorem roundDOpt_b (C : Cipher) (hlen : ∀ k x, x.length = 16 → (C.enc k x).length = 16)
+    (key Q T S U sum : Bytes) (hQ : Q.length = 16) (hT : T.length = 16) (hS : S.length = 16)
+    (hsum : sum.length = 16) (round : Nat) :
+    wblRoundDOpt C key (T ++ (S ++ (U ++ Q)), sum, 16) round =
+      (xorb T (encRound C key S round) ++ (xorb S sum ++ (U ++ Q)),
+       xorb (xorb sum Q) (xorb S sum), 0) := by
+  have he := length_encRound C hlen key S round hS
+  generalize hblk : encRound C key S round = blk at *
+  have hT' : (xorb T blk).length = 16 := by rw [length_xorb]; omega
+  have hN : (xorb S sum).length = 16 := by rw [length_xorb]; omega
+  have hl : (T ++ (S ++ (U ++ Q))).length = 48 + U.length := by simp [hQ, hT, hS]; omega
+  have hj : (16 + (48 + U.length) - 16) % (48 + U.length) = 0 := by
+    have : 16 + (48 + U.length) - 16 = 48 + U.length := by omega
+    rw [this, Nat.mod_self]
+  have hq : (16 + (48 + U.length) - 32) % (48 + U.length) = 32 + U.length := by
+    rw [Nat.mod_eq_of_lt (by omega)]; omega
+  have hg0 : getBlk (T ++ (S ++ (U ++ Q))) 16 = S := getBlk_append T S _ 16 hT.symm hS
+  have hx1 : xorAt (T ++ (S ++ (U ++ Q))) 0 blk = xorb T blk ++ (S ++ (U ++ Q)) := by
+    have := xorAt_append [] T (S ++ (U ++ Q)) blk 0 rfl hT he
+    simpa using this
+  have hx2 : xorAt (xorb T blk ++ (S ++ (U ++ Q))) 16 sum = xorb T blk ++ (xorb S sum ++ (U ++ Q)) :=
+    xorAt_append (xorb T blk) S (U ++ Q) sum 16 hT'.symm hS hsum
+  have hg1 : getBlk (xorb T blk ++ (xorb S sum ++ (U ++ Q))) (32 + U.length) = Q := by
+    have := getBlk_append (xorb T blk ++ (xorb S sum ++ U)) Q [] (32 + U.length) (by simp [hT', hN]; omega) hQ
+    simpa using this
+  have hg2 : getBlk (xorb T blk ++ (xorb S sum ++ (U ++ Q))) 16 = xorb S sum :=
+    getBlk_append (xorb T blk) (xorb S sum) _ 16 hT'.symm hN
+  simp only [wblRoundDOpt, hl, hg0, hblk, hj, hx1, hx2, hq, hg1, hg2]
+
+/-- Opt D round, `i = 0`: the buffer is `r* ‖ U ‖ r_{n-2} ‖ r_{n-1}` -/
+theorem roundDOpt_c (C : Cipher) (hlen : ∀ k x, x.length = 16 → (C.enc k x).length = 16)
+    (key Q T S U sum : Bytes) (hQ : Q.length = 16) (hT : T.length = 16) (hS : S.length = 16)
+    (hsum : sum.length = 16) (round : Nat) :
+    wblRoundDOpt C key (S ++ (U ++ (Q ++ T)), sum, 0) round =
+      (xorb S sum ++ (U ++ (Q ++ xorb T (encRound C key S round))),
+       xorb (xorb sum Q) (xorb S sum), 32 + U.length) := by
+  have he := length_encRound C hlen key S round hS
+  generalize hblk : encRound C key S round = blk at *
+  have hT' : (xorb T blk).length = 16 := by rw [length_xorb]; omega
+  have hN : (xorb S sum).length = 16 := by rw [length_xorb]; omega
+  have hl : (S ++ (U ++ (Q ++ T))).length = 48 + U.length := by simp [hQ, hT, hS]; omega
+  have hj : (0 + (48 + U.length) - 16) % (48 + U.length) = 32 + U.length := by
+    rw [Nat.mod_eq_of_lt (by omega)]; omega
+  have hq : (0 + (48 + U.length) - 32) % (48 + U.length) = 16 + U.length := by
+    rw [Nat.mod_eq_of_lt (by omega)]; omega
+  have hg0 : getBlk (S ++ (U ++ (Q ++ T))) 0 = S := by
+    have := getBlk_append [] S (U ++ (Q ++ T)) 0 rfl hS
+    simpa using this
+  have hx1 : xorAt (S ++ (U ++ (Q ++ T))) (32 + U.length) blk = S ++ (U ++ (Q ++ xorb T blk)) := by
+    have := xorAt_append (S ++ (U ++ Q)) T [] blk (32 + U.length) (by simp [hS, hQ]; omega) hT he
+    simpa using this
+  have hx2 : xorAt (S ++ (U ++ (Q ++ xorb T blk))) 0 sum = xorb S sum ++ (U ++ (Q ++ xorb T blk)) := by
+    have := xorAt_append [] S (U ++ (Q ++ xorb T blk)) sum 0 rfl hS hsum
+    simpa using this
+  have hg1 : getBlk (xorb S sum ++ (U ++ (Q ++ xorb T blk))) (16 + U.length) = Q := by
+    have := getBlk_append (xorb S sum ++ U) Q (xorb T blk) (16 + U.length) (by simp [hN]) hQ
+    simpa using this
+  have hg2 : getBlk (xorb S sum ++ (U ++ (Q ++ xorb T blk))) 0 = xorb S sum := by
+    have := getBlk_append [] (xorb S sum) (U ++ (Q ++ xorb T blk)) 0 rfl hN
+    simpa using this
+  simp only [wblRoundDOpt, hl, hg0, hblk, hj, hx1, hx2, hq, hg1, hg2]
+
+theorem length_xs2 (b : Bytes) (h : 16 ≤ b.length) : (xs2 b).length = 16 := by
+  unfold xs2
+  rw [length_xbf _ 32 (by omega) _ _ _ (by simp; omega)]; simp; omega
+
+/-- Base D round on `M' ‖ r_{n-2} ‖ r_{n-1} ‖ r*` (whole blocks, n ≥ 3) -/
+theorem roundD_form2 (C : Cipher) (hlen : ∀ k x, x.length = 16 → (C.enc k x).length = 16)
+    (key M' Q T S : Bytes) (hQ : Q.length = 16) (hT : T.length = 16) (hS : S.length = 16)
+    (hM : M'.length % 16 = 0) (round : Nat) :
+    wblRoundDBase C key (M' ++ (Q ++ (T ++ S))) round =
+      xorb S (xs2 (M' ++ (Q ++ (T ++ S)))) ++ (M' ++ (Q ++ xorb T (encRound C key S round))) := by
+  have he := length_encRound C hlen key S round hS
+  have e : M' ++ (Q ++ (T ++ S)) = (M' ++ Q) ++ (T ++ S) := by simp
+  rw [e, roundD_form C hlen key (M' ++ Q) T S hT hS round,
+    dsum_r1 (M' ++ Q) T _ S hT (by rw [length_xorb]; omega) hS (by simp [hQ]; omega) (by simp [hQ])]
+  simp
+
+theorem split_hd (b : Bytes) (h : 16 ≤ b.length) : ∃ B Z : Bytes, b = B ++ Z ∧ B.length = 16 :=
+  ⟨b.take 16, b.drop 16, (List.take_append_drop _ _).symm, by simp; omega⟩
+
+theorem split_tl (b : Bytes) (h : 16 ≤ b.length) : ∃ A B : Bytes, b = A ++ B ∧ B.length = 16 :=
+  ⟨b.take (b.length - 16), b.drop (b.length - 16), (List.take_append_drop _ _).symm, by simp; omega⟩
+
+/-- one Opt D round simulates one Base D round on the rotated buffer -/
+theorem simD (C : Cipher) (hlen : ∀ k x, x.length = 16 → (C.enc k x).length = 16)
+    (key bO : Bytes) (i round : Nat) (hc : bO.length % 16 = 0) (h48 : 48 ≤ bO.length)
+    (hi : i % 16 = 0) (hic : i < bO.length) :
+    (wblRoundDOpt C key (bO, xs2 (rot bO ((i + 16) % bO.length)), i) round).1.length = bO.length ∧
+    (wblRoundDOpt C key (bO, xs2 (rot bO ((i + 16) % bO.length)), i) round).2.2
+      = (i + bO.length - 16) % bO.length ∧
+    rot (wblRoundDOpt C key (bO, xs2 (rot bO ((i + 16) % bO.length)), i) round).1 i
+      = wblRoundDBase C key (rot bO ((i + 16) % bO.length)) round ∧
+    (wblRoundDOpt C key (bO, xs2 (rot bO ((i + 16) % bO.length)), i) round).2.1
+      = xs2 (wblRoundDBase C key (rot bO ((i + 16) % bO.length)) round) := by
+  by_cases h0 : i = 0
+  · -- layout (c)
+    subst h0
+    obtain ⟨S, r1, rfl, hS⟩ := split_hd bO (by omega)
+    obtain ⟨r2, T, rfl, hT⟩ := split_tl r1 (by simp [hS] at h48; omega)
+    obtain ⟨U, Q, rfl, hQ⟩ := split_tl r2 (by simp [hS, hT] at h48; omega)
+    have hl : (S ++ (U ++ Q ++ T)).length = 48 + U.length := by simp [hS, hT, hQ]; omega
+    rw [hl] at hc ⊢
+    have e0 : S ++ (U ++ Q ++ T) = S ++ (U ++ (Q ++ T)) := by simp
+    have hrot : rot (S ++ (U ++ Q ++ T)) ((0 + 16) % (48 + U.length)) = U ++ (Q ++ (T ++ S)) := by
+      rw [Nat.mod_eq_of_lt (by omega)]
+      unfold rot
+      rw [List.drop_left' (by omega), List.take_left' (by omega)]; simp
+    rw [hrot, e0]
+    have hsum := length_xs2 (U ++ (Q ++ (T ++ S))) (by simp [hS]; omega)
+    generalize hsm : xs2 (U ++ (Q ++ (T ++ S))) = sum at *
+    have he := length_encRound C hlen key S round hS
+    have hT' : (xorb T (encRound C key S round)).length = 16 := by rw [length_xorb]; omega
+    have hN : (xorb S sum).length = 16 := by rw [length_xorb]; omega
+    rw [roundDOpt_c C hlen key Q T S U sum hQ hT hS hsum round,
+      roundD_form2 C hlen key U Q T S hQ hT hS (by omega) round, hsm]
+    simp only []
+    refine ⟨by simp [hN, hT', hQ]; omega, ?_, rot_zero _, ?_⟩
+    · rw [Nat.mod_eq_of_lt (by omega)]; omega
+    · rw [dsum_next (xorb S sum) U Q T _ S hN hQ hT hT' hS (by omega)]
+      have : U ++ Q ++ (T ++ S) = U ++ (Q ++ (T ++ S)) := by simp
+      rw [this, hsm]
+  · by_cases h16 : i = 16
+    · -- layout (b)
+      subst h16
+      obtain ⟨T, r1, rfl, hT⟩ := split_hd bO (by omega)
+      obtain ⟨S, r2, rfl, hS⟩ := split_hd r1 (by simp [hT] at h48; omega)
+      obtain ⟨U, Q, rfl, hQ⟩ := split_tl r2 (by simp [hS, hT] at h48; omega)
+      have hl : (T ++ (S ++ (U ++ Q))).length = 48 + U.length := by simp [hS, hT, hQ]; omega
+      rw [hl] at hc ⊢
+      have hrot : rot (T ++ (S ++ (U ++ Q))) ((16 + 16) % (48 + U.length)) = U ++ (Q ++ (T ++ S)) := by
+        rw [Nat.mod_eq_of_lt (by omega)]
+        have : T ++ (S ++ (U ++ Q)) = (T ++ S) ++ (U ++ Q) := by simp
+        unfold rot
+        rw [this, List.drop_left' (by simp [hT, hS]), List.take_left' (by simp [hT, hS])]; simp
+      rw [hrot]
+      have hsum := length_xs2 (U ++ (Q ++ (T ++ S))) (by simp [hS]; omega)
+      generalize hsm : xs2 (U ++ (Q ++ (T ++ S))) = sum at *
+      have he := length_encRound C hlen key S round hS
+      have hT' : (xorb T (encRound C key S round)).length = 16 := by rw [length_xorb]; omega
+      have hN : (xorb S sum).length = 16 := by rw [length_xorb]; omega
+      rw [roundDOpt_b C hlen key Q T S U sum hQ hT hS hsum round,
+        roundD_form2 C hlen key U Q T S hQ hT hS (by omega) round, hsm]
+      simp only []
+      refine ⟨by simp [hN, hT', hQ]; omega, ?_, ?_, ?_⟩
+      · have : 16 + (48 + U.length) - 16 = 48 + U.length := by omega
+        rw [this, Nat.mod_self]
+      · unfold rot
+        rw [List.drop_left' hT', List.take_left' hT']; simp
+      · rw [dsum_next (xorb S sum) U Q T _ S hN hQ hT hT' hS (by omega)]
+        have : U ++ Q ++ (T ++ S) = U ++ (Q ++ (T ++ S)) := by simp
+        rw [this, hsm]
+    · -- layout (a)
+      have hP : bO = bO.take (i - 32) ++ bO.drop (i - 32) := (List.take_append_drop _ _).symm
+      have hPl : (bO.take (i - 32)).length = i - 32 := by simp; omega
+      generalize bO.take (i - 32) = P at hP hPl
+      generalize bO.drop (i - 32) = r0 at hP
+      subst hP
+      obtain ⟨Q, r1, rfl, hQ⟩ := split_hd r0 (by simp [hPl] at hic; omega)
+      obtain ⟨T, r2, rfl, hT⟩ := split_hd r1 (by simp [hPl, hQ] at hic hc; omega)
+      obtain ⟨S, U, rfl, hS⟩ := split_hd r2 (by simp [hPl, hQ, hT] at hic hc; omega)
+      have hl : (P ++ (Q ++ (T ++ (S ++ U)))).length = P.length + 48 + U.length := by simp [hS, hT, hQ]; omega
+      have hi' : i = P.length + 32 := by omega
+      subst hi'
+      rw [hl] at hc ⊢
+      have hrot : rot (P ++ (Q ++ (T ++ (S ++ U)))) ((P.length + 32 + 16) % (P.length + 48 + U.length))
+          = (U ++ P) ++ (Q ++ (T ++ S)) := by
+        have := rot_append_mod (P ++ (Q ++ (T ++ S))) U
+        have e1 : (P ++ (Q ++ (T ++ S))).length = P.length + 32 + 16 := by simp [hS, hT, hQ]
+        have e2 : ((P ++ (Q ++ (T ++ S))) ++ U).length = P.length + 48 + U.length := by simp [hS, hT, hQ]; omega
+        have e3 : P ++ (Q ++ (T ++ (S ++ U))) = (P ++ (Q ++ (T ++ S))) ++ U := by simp
+        rw [e1, e2] at this
+        rw [e3, this]; simp
+      rw [hrot]
+      have hsum := length_xs2 ((U ++ P) ++ (Q ++ (T ++ S))) (by simp [hS]; omega)
+      generalize hsm : xs2 ((U ++ P) ++ (Q ++ (T ++ S))) = sum at *
+      have he := length_encRound C hlen key S round hS
+      have hT' : (xorb T (encRound C key S round)).length = 16 := by rw [length_xorb]; omega
+      have hN : (xorb S sum).length = 16 := by rw [length_xorb]; omega
+      rw [roundDOpt_a C hlen key P Q T S U sum hQ hT hS hsum round,
+        roundD_form2 C hlen key (U ++ P) Q T S hQ hT hS (by simp; omega) round, hsm]
+      simp only []
+      refine ⟨by simp [hN, hT', hQ]; omega, ?_, ?_, ?_⟩
+      · have : P.length + 32 + (P.length + 48 + U.length) - 16 = P.length + 16 + (P.length + 48 + U.length) := by
+          omega
+        rw [this, Nat.add_mod_right, Nat.mod_eq_of_lt (by omega)]
+      · have e3 : P ++ (Q ++ (xorb T (encRound C key S round) ++ (xorb S sum ++ U)))
+            = (P ++ (Q ++ xorb T (encRound C key S round))) ++ (xorb S sum ++ U) := by simp
+        unfold rot
+        rw [e3, List.drop_left' (by simp [hQ, hT']), List.take_left' (by simp [hQ, hT'])]; simp
+      · rw [dsum_next (xorb S sum) (U ++ P) Q T _ S hN hQ hT hT' hS (by simp; omega)]
+        have : U ++ P ++ Q ++ (T ++ S) = (U ++ P) ++ (Q ++ (T ++ S)) := by simp
+        rw [this, hsm]
+
+theorem iterDOpt_spec (C : Cipher) (hlen : ∀ k x, x.length = 16 → (C.enc k x).length = 16) (key : Bytes)
+    (c : Nat) (hc16 : c % 16 = 0) (hc48 : 48 ≤ c) :
+    ∀ (n : Nat) (bO : Bytes) (i : Nat), bO.length = c → i = (16 * n + c - 16) % c → i % 16 = 0 →
+    (wblIterDOpt C key n (bO, xs2 (rot bO ((i + 16) % c)), i)).1
+      = wblIterD (wblRoundDBase C key) n (rot bO ((i + 16) % c)) := by
+  intro n
+  induction n with
+  | zero =>
+    intro bO i hb hi _
+    have : i = c - 16 := by rw [hi, Nat.mod_eq_of_lt (by omega)]; omega
+    subst this
+    have : (c - 16 + 16) % c = 0 := by
+      have : c - 16 + 16 = c := by omega
+      rw [this, Nat.mod_self]
+    rw [this, rot_zero]; rfl
+  | succ n ih =>
+    intro bO i hb hi hi16
+    have hic : i < bO.length := by rw [hi, hb]; exact Nat.mod_lt _ (by omega)
+    obtain ⟨s1, s2, s3, s4⟩ := simD C hlen key bO i (n + 1) (by omega) (by omega) hi16 hic
+    rw [hb] at s1 s2 s3 s4
+    simp only [wblIterDOpt, wblIterD]
+    generalize wblRoundDOpt C key (bO, xs2 (rot bO ((i + 16) % c)), i) (n + 1) = so at *
+    obtain ⟨bO', sum', i'⟩ := so
+    simp only [] at s1 s2 s3 s4
+    have hback : (i' + 16) % c = i := by
+      rw [s2, Nat.mod_add_mod]
+      have : i + c - 16 + 16 = i + c := by omega
+      rw [this, Nat.add_mod_right, Nat.mod_eq_of_lt (by omega)]
+    have hi1 : i' = (16 * n + c - 16) % c := by
+      rw [s2, hi]
+      have e1 : (16 * (n + 1) + c - 16) % c + c - 16 = (16 * (n + 1) + c - 16) % c + (c - 16) := by omega
+      rw [e1, Nat.mod_add_mod]
+      have e2 : 16 * (n + 1) + c - 16 + (c - 16) = 16 * n + c - 16 + c := by omega
+      rw [e2, Nat.add_mod_right]
+    have hi1' : i' % 16 = 0 := by
+      rw [s2]
+      by_cases hlt : 16 ≤ i
+      · have : i + c - 16 = i - 16 + c := by omega
+        have e : (i + c - 16) % c = i - 16 := by
+          rw [this, Nat.add_mod_right]; exact Nat.mod_eq_of_lt (by omega)
+        rw [e]; omega
+      · have : i = 0 := by omega
+        subst this
+        have e : (0 + c - 16) % c = c - 16 := by
+          rw [Nat.zero_add]; exact Nat.mod_eq_of_lt (by omega)
+        rw [e]; omega
+    have := ih bO' i' s1 hi1 hi1'
+    rw [hback, s3, ← s4] at this
+    exact this
+
+/-- `beltWBLStepDOpt` computes the same buffer as `beltWBLStepDBase` on every buffer made of at least
+three whole blocks -/
+theorem stepDOpt_eq_Base (C : Cipher) (hlen : ∀ k x, x.length = 16 → (C.enc k x).length = 16)
+    (key buf : Bytes) (h16 : buf.length % 16 = 0) (h48 : 48 ≤ buf.length) :
+    wblStepDOpt C key buf = wblStepDBase C key buf := by
+  have hi : buf.length - 16 = (16 * (2 * wblN buf.length) + buf.length - 16) % buf.length := by
+    rw [two_n _ h16]
+    have : 2 * buf.length + buf.length - 16 = buf.length - 16 + buf.length * 2 := by omega
+    rw [this, Nat.add_mul_mod_self_left, Nat.mod_eq_of_lt (by omega)]
+  have h0 : (buf.length - 16 + 16) % buf.length = 0 := by
+    have : buf.length - 16 + 16 = buf.length := by omega
+    rw [this, Nat.mod_self]
+  have e := iterDOpt_spec C hlen key buf.length h16 h48 (2 * wblN buf.length) buf (buf.length - 16) rfl hi
+    (by omega)
+  rw [h0, rot_zero] at e
+  unfold wblStepDOpt wblStepDBase
+  simp only []
+  have hx : (xorBlocksFrom buf 32 buf.length 16 (buf.take 16)).1 = xs2 buf := rfl
+  rw [hx, e]
+
 /-! ### a toy cipher for the non-vacuity examples -/
 
 /-- adds 1 to every octet (keyless); only used to evaluate examples by `decide` -/
